@@ -12,7 +12,9 @@ RULE = ("region trees over {parallel, auto}: exhaustive up to depth 2 / width 2 
         "invocations inside auto, interleaved with gates and wrapped in branches / loops, plus seeded random trees of depth "
         "<= 5 and width <= 4; each is compiled by the real @move(fold=False) and @move, and the path.Gen / Parallel / Auto / "
         "Play statements, their operand wiring, kwargs and argument order are read off the compiled IR and compared with the "
-        "pass model and with the specification. non-trivial = tree with a nested block; distinct = distinct trees.")
+        "pass model and with the specification; plus a three-parameter kernel called with every keyword order, directly inside auto "
+        "and through device functions of every provenance (made in the kernel, reversed, aliased, kernel argument, captured object, "
+        "returned by a helper), at top level and inside both block kinds, compiled with fold / default / verify=False. non-trivial = tree with a nested block; distinct = distinct trees.")
 TRUSTED = ["modelled, not verified: kirin's Walk/Fixpoint/Chain rewrite drivers (post-order, regions before their statement), "
            "Statement.delete/detach/insert and global use counts; CSE/DCE afterwards (only pure statements, see C04)"]
 ASSUMPTIONS = ["call sites are told apart by a distinct integer literal argument"]
@@ -228,6 +230,91 @@ def read_ir(mt, calls):
     return "(" + " ".join(stmts(mt.callable_region.blocks[0].stmts)) + ")", problems
 
 
+ARG_HDR = '''from typing import Any
+from bloqade.geometry.dialects import grid
+from kirin.dialects import ilist
+from bloqade.shuttle import action, gate, schedule, spec
+from bloqade.shuttle.prelude import tweezer, move
+
+@tweezer
+def tk3(g: grid.Grid[Any, Any], n: int, m: int):
+    action.set_loc(g)
+    action.move(grid.shift(g, 1.0 * n, 0.5 * m))
+
+@move
+def hop_device():
+    return schedule.device_fn(tk3, ilist.IList([0, 1]), ilist.IList([0]))
+
+captured = schedule.DeviceFunction(tk3, ilist.IList([0]), ilist.IList([0]))
+
+'''
+
+# every way of writing the three arguments (g, n, m): positional prefix, then keywords in any order
+ARG_FORMS = [([], ["g", "n", "m"]), (["g"], ["n", "m"]), (["g"], ["m", "n"]), (["g", "n"], ["m"]), (["g", "n", "m"], []),
+             ([], ["n", "m", "g"]), ([], ["m", "g", "n"]), ([], ["g", "m", "n"]), ([], ["n", "g", "m"]), ([], ["m", "n", "g"])]
+
+
+def arg_stream(ctx):
+    """a kernel with three parameters called with every keyword order, directly inside auto and through device functions of
+    every provenance (made in the kernel, reversed, aliased, a kernel argument, a captured Python object, returned by a helper)"""
+    from bloqade.shuttle.dialects import path, schedule as sched
+    from kirin.dialects import func, py
+    callees = ["tk3", "df", "dr", "al", "fa", "captured", "hd"]
+    rng = ctx.rng
+    for callee in callees:
+        for where in ("top", "parallel", "auto"):
+            if callee == "tk3" and where != "auto":
+                continue
+            calls, lines, cid = {}, [], 100
+            forms = ARG_FORMS if ctx.tier == "thorough" else rng.sample(ARG_FORMS, 5)
+            for pos, kw in forms:
+                cid += 1
+                val = {"g": "z", "n": str(cid), "m": "7"}
+                args = [val[a] for a in pos] + [f"{a}={val[a]}" for a in kw]
+                lines.append(f"{callee}({', '.join(args)})")
+                calls[cid] = (pos, kw)
+            ind = "    " if where == "top" else "        "
+            body = ([] if where == "top" else [f"    with schedule.{where}():"]) + [ind + l for l in lines]
+            for opts in ("(fold=False)", "", "(verify=False)"):
+                src = (ARG_HDR + f"@move{opts}\ndef prog(b: bool, fa: schedule.DeviceFunction):\n"
+                       "    df = schedule.device_fn(tk3, ilist.IList([0]), ilist.IList([0]))\n"
+                       "    dr = schedule.reverse(df)\n    al = df\n    hd = hop_device()\n"
+                       '    z = spec.get_static_trap(zone_id="traps")\n' + "\n".join(body) + "\n")
+                case = {"source": src[len(ARG_HDR):], "options": opts or "(default)", "callee": callee, "where": where}
+                ctx.count("arg_stream_programs")
+                try:
+                    mod = T.load_source(src, "c03a")
+                except Exception as e:  # noqa: BLE001
+                    ctx.fail(case, f"a kernel whose calls are all valid does not compile: {type(e).__name__}: {str(e)[:160]}")
+                    continue
+                gens = [st for st in mod.prog.callable_region.walk() if isinstance(st, path.Gen)]
+                plays = [st for st in mod.prog.callable_region.walk() if isinstance(st, path.Play)]
+                left = [st for st in mod.prog.callable_region.walk() if isinstance(st, (func.Call, sched.Parallel, sched.Auto))
+                        or (isinstance(st, func.Invoke) and st.callee.sym_name == "tk3")]
+                if left:
+                    ctx.fail(case, f"{len(left)} call(s) / schedule region(s) are left in the compiled kernel: {type(left[0]).__name__}")
+                if len(plays) != (len(calls) if where == "top" else 1):
+                    ctx.fail(case, f"{len(plays)} play statement(s) for {len(calls)} call(s) written {where}")
+                seen = set()
+                for o in gens:
+                    def const_of(v):
+                        ow = getattr(v, "owner", None)
+                        return ow.value.unwrap() if isinstance(ow, py.Constant) and hasattr(ow.value, "unwrap") else None
+                    ids = [const_of(i) for i in o.inputs]
+                    c = next((x for x in ids if isinstance(x, int) and not isinstance(x, bool) and x >= 100), None)
+                    if c not in calls:
+                        continue
+                    seen.add(c)
+                    pos, kw = calls[c]
+                    want = pos + kw
+                    got = ["n" if (isinstance(x, int) and x >= 100) else "m" if x == 7 else "g" for x in ids]
+                    if tuple(o.kwargs) != tuple(kw) or got != want:
+                        ctx.fail(case, f"call {c} written ({', '.join(pos)} | {', '.join(kw)}) reaches its path as inputs {got} with "
+                                       f"keyword names {tuple(o.kwargs)}")
+                if seen != set(calls):
+                    ctx.fail(case, f"calls {sorted(set(calls) - seen)} have no path.Gen in the compiled kernel")
+
+
 def strip_ctrl_tags(s):
     import re
     return re.sub(r"\(ctrl \d+", "(ctrl ?", s)
@@ -285,6 +372,7 @@ def run(ctx):
             nested = any(c[0] == "region" for t in ts if t[0] == "region" for c in t[2]) or "region" in repr(ts)[20:]
             ctx.seen((w, opts), nested)
             ctx.count("compiled")
+    arg_stream(ctx)
     lowered = ctx.driver(lines_l)
     spec = ctx.driver(lines_s)
     ctx.traces_validated = len(rows)
